@@ -196,6 +196,10 @@ func (l *lexer) emit(t tokenType) {
 func (l *lexer) errorf(format string, args ...interface{}) stateFn {
 	tok := token{fmt.Sprintf(format, args...), tokenError, Pos{l.line, l.offset}}
 	l.tokens <- tok
+	// An error token is terminal, like EOF: close the stream so that a reader never
+	// waits for a token that will not come.
+	close(l.tokens)
+	l.mode = modeClosed
 
 	return nil
 }
